@@ -257,7 +257,7 @@ func Run(r *ev.Run) {
 		"one AcraServer per client identity (static client id), v1 filesystem keystore; TLS not used",
 	}
 	rng := gen.New(r.Seed, "c04")
-	nSessions := r.Pick(36, 1200)
+	nSessions := r.Pick(120, 1500)
 	only := -1
 	if v := os.Getenv("VERIF_C04_SESSION"); v != "" {
 		fmt.Sscan(v, &only)
